@@ -40,8 +40,9 @@ fn explain_plan(cli: &super::super::args::Cli, engine: &Engine) -> anyhow::Resul
     let managed_paths_from_manifest =
         crate::target_manifest::load_managed_paths_from_manifests(&roots)?;
     warnings.extend(managed_paths_from_manifest.warnings);
+    let any_usable_manifest = managed_paths_from_manifest.any_usable;
     let managed_paths_from_manifest = managed_paths_from_manifest.managed_paths;
-    let managed_paths = if !managed_paths_from_manifest.is_empty() {
+    let managed_paths = if any_usable_manifest {
         Some(super::super::util::filter_managed(
             managed_paths_from_manifest,
             &cli.target,
